@@ -17,13 +17,17 @@ def RunOK (sys : RungSys) : Prop :=
   ∀ x ∈ sys.running, ∀ rf, x.2.2 = some rf → rf < x.2.1
 
 structure KInv (s : Sched) : Prop where
-  plain : s.mgr.type.plain
+  pr : s.mgr.type.pauseResume = true
   paused : ∀ t ∈ unpromotedSys s.mgr.systems, NotRunning s t
   nodup : (unpromotedSys s.mgr.systems).Nodup
   runok : ∀ sys ∈ s.mgr.systems, RunOK sys
 
 theorem plain_pauseResume {ty : HBType} (h : ty.plain) : ty.pauseResume = true := by
   rcases h with rfl | rfl <;> rfl
+
+theorem pauseResume_cases {ty : HBType} (h : ty.pauseResume = true) :
+    ty = .promotion ∨ ty = .pasha ∨ ty = .costPromotion ∨ ty = .rushPromotion := by
+  cases ty <;> simp_all [HBType.pauseResume]
 
 theorem unpromotedSys_set (ss : List RungSys) (i : Nat) (sys sys' : RungSys) (h : ss[i]? = some sys) :
     ∃ pre post, ss = pre ++ sys :: post ∧ ss.set i sys' = pre ++ sys' :: post ∧
